@@ -10,6 +10,8 @@
    2. ATTRIBUTE conversion: attribute_converter.py  AttributeConverter.from_dict
       / to_ / ava_from / lcd_ava_from, from_local, list_to_local, over the
       regenerated attribute maps (Gen/AttrMaps.v); str.strip; ASCII str.lower.
+      (list_to_local / ava_from follow proposed_fix/C08-2 and C08-3; the code
+      before them is kept as the ..._before_fix definitions.)
    3. BUILD: Server.create_authn_response -> gather_authn_response_args ->
       _authn_response -> setup_assertion -> Assertion.construct ->
       Entity._response (which elements get signed / encrypted, in which
@@ -380,14 +382,18 @@ Inductive rval :=
 
 Definition truthy (s : str) : option str := match s with [] => None | _ => Some s end.
 
+(* AttributeConverter.ava_from, one value (after proposed_fix/C08-3): a NameID extension element under the
+   local name eduPersonTargetedID is read as its trimmed text - '' when it has none, which is how to_()
+   sends an empty value; under any other name as {'NameID': {'format': .., 'value': ..}} *)
 Definition read_value (local : str) (v : aval) : rval :=
   match v with
   | AText s => RStr (strip s)                            (* '' when there is no text *)
   | ANameID fmt s =>
-      match s with
-      | [] => RNameID (truthy fmt) None
-      | _ => if str_eqb local EPTID then RStr (strip s) else RNameID (truthy fmt) (Some (strip s))
-      end
+      if str_eqb local EPTID then RStr (strip s)
+      else match s with
+           | [] => RNameID (truthy fmt) None
+           | _ => RNameID (truthy fmt) (Some (strip s))
+           end
   end.
 
 (* AttributeConverter.ava_from (allow_unknown = False): None = KeyError *)
@@ -400,11 +406,14 @@ Definition ava_from (c : conv) (a : attribute) : option (str * list rval) :=
 Definition lcd_ava_from (a : attribute) : str * list rval :=
   (strip (at_name a), map (fun v => match v with AText s => RStr (strip s) | ANameID _ _ => RStr [] end) (at_values a)).
 
-(* acsd = dict((a.name_format, a) for a in acs): the LAST converter with that format *)
-Fixpoint acsd_get (nf : str) (acs : list conv) : option conv :=
-  match acs with
+(* list_to_local (after proposed_fix/C08-2): acsd[name_format] = EVERY converter registered for that name
+   format, in ac_factory order (the order from_local looks at them) *)
+Definition convs_for (nf : str) (acs : list conv) : list conv := filter (fun c => str_eqb nf (c_nf c)) acs.
+(* ... asked in turn; the first that knows the name answers; None = the KeyError of the last one *)
+Fixpoint first_known (cs : list conv) (a : attribute) : option (str * list rval) :=
+  match cs with
   | [] => None
-  | c :: r => match acsd_get nf r with Some c' => Some c' | None => if str_eqb nf (c_nf c) then Some c else None end
+  | c :: r => match ava_from c a with Some kv => Some kv | None => first_known r a end
   end.
 
 Definition ava := list (str * list rval).
@@ -419,15 +428,15 @@ Fixpoint ava_add (k : str) (vs : list rval) (d : ava) : ava :=
 (* an Attribute parsed without NameFormat keeps the constructor default of saml.Attribute: the uri format *)
 Definition parsed_format (a : attribute) : str := match at_format a with Some nf => nf | None => NAME_FORMAT_URI end.
 Definition read_attr (acs : list conv) (allow_unknown : bool) (a : attribute) : option (str * list rval) :=
-  match acsd_get (parsed_format a) acs with
-  | Some c =>
-      match ava_from c a with
+  match convs_for (parsed_format a) acs with
+  | [] =>
+      if str_eqb (parsed_format a) NAME_FORMAT_UNSPECIFIED || allow_unknown
+      then Some (lcd_ava_from a) else None
+  | cs =>
+      match first_known cs a with
       | Some kv => Some kv
       | None => if allow_unknown then Some (lcd_ava_from a) else None
       end
-  | None =>
-      if str_eqb (parsed_format a) NAME_FORMAT_UNSPECIFIED || allow_unknown
-      then Some (lcd_ava_from a) else None
   end.
 
 Fixpoint list_to_local_from (acs : list conv) (allow_unknown : bool) (attrs : list attribute) (d : ava) : ava :=
@@ -438,6 +447,50 @@ Fixpoint list_to_local_from (acs : list conv) (allow_unknown : bool) (attrs : li
   end.
 Definition list_to_local (acs : list conv) (allow_unknown : bool) (attrs : list attribute) : ava :=
   list_to_local_from acs allow_unknown attrs [].
+
+(* --- before the repairs proposed_fix/C08-2 and C08-3 ---
+   C08-3: ava_from returned the NameID text only `if attr == eduPersonTargetedID and ex.text`: an EMPTY
+          eduPersonTargetedID value came back as the dictionary {'NameID': {'format': ...}}
+   C08-2: acsd = dict((a.name_format, a) for a in acs) kept only the LAST converter of a name format while
+          from_local converts with the FIRST: names only the first one knows were sent but never delivered *)
+Definition read_value_before_fix (local : str) (v : aval) : rval :=
+  match v with
+  | AText s => RStr (strip s)
+  | ANameID fmt s =>
+      match s with
+      | [] => RNameID (truthy fmt) None
+      | _ => if str_eqb local EPTID then RStr (strip s) else RNameID (truthy fmt) (Some (strip s))
+      end
+  end.
+Definition ava_from_before_fix (c : conv) (a : attribute) : option (str * list rval) :=
+  match dict_get (lower (strip (at_name a))) (c_fro c) with
+  | Some local => Some (local, map (read_value_before_fix local) (at_values a))
+  | None => None
+  end.
+Fixpoint acsd_get_before_fix (nf : str) (acs : list conv) : option conv :=
+  match acs with
+  | [] => None
+  | c :: r => match acsd_get_before_fix nf r with Some c' => Some c' | None => if str_eqb nf (c_nf c) then Some c else None end
+  end.
+Definition read_attr_before_fix (acs : list conv) (allow_unknown : bool) (a : attribute) : option (str * list rval) :=
+  match acsd_get_before_fix (parsed_format a) acs with
+  | Some c =>
+      match ava_from_before_fix c a with
+      | Some kv => Some kv
+      | None => if allow_unknown then Some (lcd_ava_from a) else None
+      end
+  | None =>
+      if str_eqb (parsed_format a) NAME_FORMAT_UNSPECIFIED || allow_unknown
+      then Some (lcd_ava_from a) else None
+  end.
+Fixpoint list_to_local_from_before_fix (acs : list conv) (allow_unknown : bool) (attrs : list attribute) (d : ava) : ava :=
+  match attrs with
+  | [] => d
+  | a :: r => list_to_local_from_before_fix acs allow_unknown r
+                (match read_attr_before_fix acs allow_unknown a with Some (k, vs) => ava_add k vs d | None => d end)
+  end.
+Definition list_to_local_before_fix (acs : list conv) (allow_unknown : bool) (attrs : list attribute) : ava :=
+  list_to_local_from_before_fix acs allow_unknown attrs [].
 
 (* --- the attribute statement as an XML tree and back --- *)
 Definition P_SAML : str := s2l "ns1:".                    (* prefix ElementTree gives the assertion namespace in a Response *)
